@@ -18,7 +18,7 @@ META = dict(
     level_note='Trusted: Coq kernel; extraction + OCaml driver and the python harness for the correspondence; boost::gregorian day-number/ymd conversion and month arithmetic modelled in Model/PeriodCalendar.v (validated against ledger and python datetime); reading a date word (the date reader, C14) is glue: the harness hands the model the day each date word names; the from/to limit predicates added by report_t::normalize_period are glue (the driver filters the postings by the bounds of the parsed interval; the oracle checks that filter against ledger\'s own `reg --limit`). Not modelled in the expression: month and weekday names, this/next/last, today/tomorrow/yesterday, N units ago/hence, a bare integer, the `-` range. Amounts are positive so that no group displays as zero.',
     design_ref='DESIGN.md section 7 C13, section 6.5',
     assumptions=['from < to when both are given', 'postings carry no auxiliary dates; one account and one commodity per report so that a row is one interval',
-                 '--start-of-week is given as a number 0-6 or a day name; a day name that is not all lower case is ignored without a message (finding F13a: the model is given the week start ledger ends up with, the oracle the one the command line names)',
+                 '--start-of-week is given as a number 0-6 or a day name in any letter case (the model reads the text; F13a, a name not in lower case silently ignored, is repaired); a text that names no day is refused',
                  'posting amounts are positive (a zero group subtotal is hidden by the register report unless --empty)',
                  '--input-date-format values use only the directives %Y %y %m %b %B %d %F, start with a digit and contain no blank (a period date word must); observed on the unchanged tree and not claimed: the reader traits do not know %e, %j, %D or %h, so `monthly from 10-03-2021` under --input-date-format %e-%m-%Y is taken as from 2021/03/01'],
 )
@@ -256,8 +256,11 @@ def gen_case(rng, exhaustive=None):
     case['from'] = dn(f) if f else None
     case['to'] = dn(t) if t else None
     case['group'] = False
-    if rng.random() < (0.3 if q == 'w' else 0.05):
+    r = rng.random()
+    if r < (0.3 if q == 'w' else 0.05):
         spell_week_start(rng, case)
+    elif r > 0.985:
+        unknown_week_start(rng, case)
     set_format(rng, case, None)
     return case
 
@@ -266,16 +269,28 @@ WDAYS = ['sunday', 'monday', 'tuesday', 'wednesday', 'thursday', 'friday', 'satu
 
 
 def spell_week_start(rng, case):
-    """--start-of-week takes a day NAME as well as a number.  sow = the day the command line names (what the
-    property calls the configured first day of the week); sow_eff = what report_t::normalize_options makes of the
-    text: string_to_day_of_week compares it AS WRITTEN with sun/sunday/0 ... sat/saturday/6 and a text it does
-    not know leaves the default (Sunday) in place, without a message - the model is given sow_eff"""
+    """--start-of-week takes a day NAME as well as a number, in any letter case (report_t::normalize_options
+    lower-cases the text before string_to_day_of_week; F13a, repaired: a name not in lower case used to be ignored
+    without a message).  sow = the day the text names, for the oracle; the MODEL is given the text."""
     name = WDAYS[case['sow']]
     word = rng.choice([name, name[:3]])
     if rng.random() < 0.3:
         word = rng.choice([word.capitalize(), word.upper()])
     case['sow_text'] = word
-    case['sow_eff'] = case['sow'] if word == word.lower() else 0
+
+
+UNKNOWN_DAYS = ['lundi', '7', 'mo', 'mondays', 'monday2', 'day', 'weekly', '10', 'sonntag', 'Frei', '1.0']
+
+
+def unknown_week_start(rng, case):
+    """a text that names no day: the run is refused (status non-zero, no report) - it used to fall back to Sunday"""
+    case['sow_text'] = rng.choice(UNKNOWN_DAYS)
+    case['sow_unknown'] = True
+
+
+def sow_text_of(case):
+    """what the model reads: the text given to --start-of-week, `0` (the default, Sunday) when it is not given"""
+    return case.get('sow_text') or str(case['sow'])
 
 
 # ---- running ledger ------------------------------------------------------------------------------
@@ -318,7 +333,7 @@ def run_reg(case, jpath):
     """-> ('OK', rows) or, with --group-by, ('OK', [(title, rows), ...]); a row is (first day, last day, amount, account)"""
     st, out, err = lib.run_ledger(reg_args(case, jpath))
     if st != 0:
-        return ('ERR', st, err.decode('utf-8', 'replace')[:200])
+        return ('ERR', st, err.decode('utf-8', 'replace')[:200], 'stdout=%d' % len(out))
     rows = []
     groups = []
     for l in out.decode().split('\n'):
@@ -371,7 +386,7 @@ def failure_class(impl):
         return 'signal'
     for pat, name in [('out of valid range', 'date-out-of-range'), ('improperly initialized', 'interval-not-initialized'),
                       ('Failed to find period', 'no-period-found'), ('Invalid date', 'invalid-date'),
-                      ('Unexpected date period token', 'period-syntax')]:
+                      ('Unexpected date period token', 'period-syntax'), ('Unknown day of the week', 'unknown-week-day')]:
         if pat in text:
             return name
     return 'unreadable-output' if impl[1] in ('row', 'amount', 'format') else 'error'
@@ -409,7 +424,7 @@ def model_tail(case):
 def model_reg_line(cid, case, posts):
     """all postings of the account in date order (stable, as std::stable_sort); the driver limits them to the
     bounds the model derives from the text; with --group-by: one list per payee, in payee order, journal order"""
-    head = model_head('greg' if case.get('group') else 'reg', cid, case) + [case.get('sow_eff', case['sow']), case['align'], case['empty']] + model_tail(case)
+    head = model_head('greg' if case.get('group') else 'reg', cid, case) + [sow_text_of(case).encode(), case['align'], case['empty']] + model_tail(case)
     if case.get('group'):
         gs = []
         for payee in sorted({p[2] for p in posts}):
@@ -547,7 +562,7 @@ def canon_rows(rows, impl):
 def full_case(case, journal):
     return dict(expr=case['expr'], sow=case['sow'], align=case['align'], empty=case['empty'], q=case['q'], n=case['n'],
                 fmt=case.get('fmt'), bfmt=case.get('bfmt'), group=bool(case.get('group')),
-                sow_text=case.get('sow_text'), sow_eff=case.get('sow_eff'),
+                sow_text=case.get('sow_text'), sow_unknown=bool(case.get('sow_unknown')),
                 **{'from': case['from'], 'to': case['to']}, journal=journal['text'])
 
 
@@ -590,6 +605,19 @@ def check_reg(res, case, journal, impl, plain, model):
         res.count('reg:empty')
     if case.get('group'):
         res.count('reg:group-by')
+    if case.get('sow_unknown'):
+        # --start-of-week with a text that names no day: refused by ledger (a message, status non-zero, nothing on
+        # stdout) and by the model
+        res.count('reg:start-of-week-unknown-text')
+        refused = impl[0] == 'ERR' and failure_class(impl) == 'unknown-week-day' and impl[3] == 'stdout=0'
+        if impl[0] == 'OK':
+            res.violations.append(dict(key='reg:start-of-week:unknown-text-ignored', desc='--start-of-week %s is accepted and ignored (%s)' % (case['sow_text'], case['expr']),
+                                       case=full, observed='a report of %d rows' % len(impl[1]), required='an error: the text names no day of the week'))
+        if not refused or model[0] != 'ERR':
+            res.disagreements.append(dict(name='C13/start-of-week-refused', case=full, impl=str(impl)[:300], model=str(model)[:300]))
+        else:
+            res.nontrivial.add(cid + ' ' + opts)
+        return
     # correspondence
     if impl[0] != 'OK':
         # oracle: every expression and journal generated here is valid, and the property says what the report
@@ -630,10 +658,11 @@ def check_reg(res, case, journal, impl, plain, model):
             res.samples.append(dict(expr=case['expr'], options=opts, rows=['%s..%s %s' % (s, e, a) for s, e, a, _ in rows[:4]]))
     # oracle
     def viol(key, desc, observed, required):
-        if case.get('sow_text') and case.get('sow_eff') != case['sow']:
-            # whatever the symptom: the week start named on the command line is not the one the report uses
+        if (case.get('sow_text') and case['sow_text'] != case['sow_text'].lower() and case['q'] == 'w' and case['sow'] != 0
+                and key.split(':')[-1] in ('alignment', 'first-interval-end-unaligned', 'first-interval-too-long', 'length')):
+            # F13a (repaired in c3dda9e), should it return: the week start named in capitals is not the one the report uses
             key = 'reg:start-of-week:day-name-not-in-lower-case-ignored'
-            desc = '--start-of-week %s is ignored without a message; %s' % (case['sow_text'], desc)
+            desc = '--start-of-week %s does not configure that day; %s' % (case['sow_text'], desc)
         res.violations.append(dict(key=key, desc='%s (%s %s)' % (desc, case['expr'], opts), case=full, observed=observed, required=required))
     if case.get('sow_text'):
         res.count('reg:start-of-week-as-a-day-name%s' % ('' if case['sow_text'] == case['sow_text'].lower() else ':not-lower-case'))
